@@ -15,7 +15,7 @@ Definition node_eqb (a b : node) : bool :=
   end.
 
 Record case := mkcase {
-  c_dim : nat; c_mls : nat; c_pts : list (list Z);
+  c_dim : nat; c_mls : nat; c_strategy : strategy; c_pts : list (list Z);
   c_now : list (list Z);                        (* the caller's container while the queries run *)
   c_piv : list Z;                               (* what _find_pivot returned, in call order *)
   c_nodes : list node;                          (* tree.nodes as observed *)
@@ -45,11 +45,36 @@ Definition check_rad (P : list (list Z)) (nodes : list node) (x : list Z * Z * l
   | _ => false
   end.
 
+(* the points below node i (fuel = number of nodes) *)
+Fixpoint subpts (fuel : nat) (nodes : list node) (i : nat) : list nat :=
+  match fuel with
+  | O => []
+  | S f => match nth_error nodes i with
+           | Some (Leaf _ lp _) => lp
+           | Some (Node _ _ l r _) => subpts f nodes l ++ subpts f nodes r
+           | None => []
+           end
+  end.
+
+(* every recorded pivot is one the strategy's rule allows for the coordinates of the leaf that was split (the k-th internal
+   node of the array consumed the k-th pivot) *)
+Fixpoint pivots_ok (P : list (list Z)) (r : prule) (nodes : list node) (i : nat) (rest : list node) (piv : list Z) : bool :=
+  match rest with
+  | [] => true
+  | Leaf _ _ _ :: t => pivots_ok P r nodes (S i) t piv
+  | Node ax _ _ _ _ :: t =>
+    match piv with
+    | [] => false
+    | p :: piv' => pivot_ok r (map (fun j => coord P j ax) (subpts (length nodes) nodes i)) p && pivots_ok P r nodes (S i) t piv'
+    end
+  end.
+
 Definition check_case (c : case) : bool :=
   match build (c_pts c) (c_dim c) (c_mls c) (fun s => nth s (c_piv c) 0) with
   | Ok nodes =>
     list_eqb node_eqb nodes (c_nodes c)
     && Nat.eqb (length (filter is_node nodes)) (length (c_piv c))
+    && pivots_ok (c_pts c) (pivot_rule (c_strategy c)) nodes 0 nodes (c_piv c)
     && forallb (check_knn (self_points (c_pts c) (c_now c)) nodes) (c_knn c)
     && forallb (check_rad (self_points (c_pts c) (c_now c)) nodes) (c_rad c)
   | _ => false
